@@ -157,7 +157,14 @@ class TLV:
         while len(tail) > 0:
             key = tail.pop(0)
             if expected and key not in expected:
-                break
+                # Skip an item the caller did not ask for, not the rest of the
+                # message: the items behind it (an error, the state) must still
+                # be seen. Only a truncated unwanted item ends the parse, there
+                # is nothing behind it.
+                if len(tail) == 0 or len(tail) - 1 < tail[0]:
+                    break
+                tail = tail[1 + tail[0] :]
+                continue
             if len(tail) == 0:
                 raise TlvParseException(f"Not enough data for length while decoding '{ba}'")
             length = tail.pop(0)
